@@ -251,6 +251,30 @@ example :
         (.spart .remove [none, some .posE]))) (.call (.var 0) [some (.par (.cat (.cat (.lit 10) (.lit 20)) (.lit 30)))])) =
       .ok [.int 20, .int 30, .int 10, .int 30, .int 10, .int 20] := by decide
 
+/-! ## typed inline functions: function conversion rules -/
+
+/-- the function conversion rules of the fragment are idempotent: converting a converted value
+changes nothing.  (The code converts the fixed arguments of a partial application when it is
+evaluated and the supplied arguments at the call; the model hands the whole filled argument list to
+the conversion at the call — equal by this theorem.) -/
+theorem conversion_idempotent (t : STy) (s s' : Seq) (h : convSeq t s = .ok s') : convSeq t s' = .ok s' :=
+  convSeq_idem t s s' h
+
+/-- test on literals (model on the reference tree = specification, no flag):
+`function($a as xs:integer, $b as xs:double){($a,$b)}(?, 2)(1)` = `(1, 2e0)` (the fixed argument is
+promoted when the partial application is evaluated); `…(?, true())` is a type error at the
+application; a function item for an `xs:anyAtomicType` parameter is FOTY0013; a single function item
+matches `function(*)?` -/
+example :
+    let f : Expr := .tfnE 0 [1, 2] [⟨.integer, .one⟩, ⟨.double, .one⟩] ⟨.item, .star⟩ (.cat (.var 1) (.var 2))
+    implEval Cfg.fixed 20 (.call (.call f [none, some (.lit 2)]) [some (.lit 1)]) =
+      { result := .ok [.int 1, .dbl 2], flags := Flags.none } ∧
+    specEval 20 (.call (.call f [none, some (.lit 2)]) [some (.lit 1)]) = .ok [.int 1, .dbl 2] ∧
+    specEval 20 (.call f [none, some .tt]) = .error .XPTY0004 ∧
+    specEval 20 (.call (.tfnE 0 [1] [⟨.atomic, .one⟩] ⟨.item, .star⟩ (.var 1)) [some (.named .abs)]) = .error .FOTY0013 ∧
+    specEval 20 (.call (.tfnE 0 [1] [⟨.func, .opt⟩] ⟨.integer, .one⟩ (.call (.named .count) [some (.var 1)]))
+      [some (.named .abs)]) = .ok [.int 1] := by decide
+
 /-! ## higher-order functions -/
 
 /-- `hof_eq_expansion`, part 1 (model = F&O definition): the loops of the implementation
